@@ -1670,8 +1670,10 @@ class MapLoop(LoopSpec):
         saved = dict(fr.locals)
         try:
             interp.exec_block(s.body, fr)
-        except (BreakSig, ContinueSig):
-            raise Unsupported("break/continue under the map rule")
+        except ContinueSig:
+            pass            # `continue` ends this (arbitrary) iteration: nothing of it is carried to another one
+        except BreakSig:
+            raise Unsupported("break under the map rule (later iterations depend on this one)")
         finally:
             pass
         # after the loop: locals assigned in the body are unknown; the iteration that was executed
